@@ -63,30 +63,14 @@ theorem C05_untrack_spares_referenced (s : St) (ps : List Path) (a : Addr) (o : 
   simp only at hr
   split at hr
   · rw [h] at hr; cases hr
-  · have h1 : ∀ s0 : St, (forEach (fun (s : St) (e : Ent) =>
-        match s.recs e with
-        | some r =>
-          match s.ws r.path, r.cur with
-          | some (.sym _), some d => s.recheckFromCache r.path (addrOf r.path d) .copy
-          | _, _ => (s, .ok)
-        | none => (s, .ok)) s0 (s.targetEnts ps)).1.cache = s0.cache := by
-      intro s0
-      apply forEach_rel (fun s s' => s'.cache = s.cache) (fun _ => rfl) (fun _ _ _ h1 h2 => h2.trans h1)
-      intro s1 e
-      split
-      · split
-        · exact recheckFromCache_cache _ _ _ _
-        · rfl
-      · rfl
-    have h1s := h1 s
-    generalize (forEach _ s (s.targetEnts ps)) = res at h1s hr
+  · have h1 := rematerialise_cache s (s.targetEnts ps)
+    generalize s.rematerialise (s.targetEnts ps) = res at h1 hr
     obtain ⟨s1, o1⟩ := res
-    simp only at h1s hr
-    cases o1 with
-    | panic => simp only at hr; rw [h1s, h] at hr; cases hr
-    | ok =>
-      simp only at hr
-      have hm := mem_of_removed _ _ a o (by show s1.cache a = some o; rw [h1s]; exact h) hr
+    have key : (List.foldl St.removeObj (s1.dropRecs (s.targetEnts ps)) (s.untrackDeletable (s.targetEnts ps))).cache a = none →
+        ∀ e ∈ s.ents, e ∉ s.targetEnts ps → a ∉ s.versionsOf e := by
+      intro hr
+      have hm := mem_of_removed _ _ a o (by show s1.cache a = some o; rw [h1]; exact h) hr
+      unfold St.untrackDeletable at hm
       simp only [List.mem_filter, List.isEmpty_iff] at hm
       intro e he hnt hv
       have : e ∈ s.otherReferrers (s.targetEnts ps) a := by
@@ -95,43 +79,26 @@ theorem C05_untrack_spares_referenced (s : St) (ps : List Path) (a : Addr) (o : 
         exact ⟨he, hnt, hv⟩
       rw [hm.2] at this
       cases this
-    | refused =>
-      simp only at hr
-      have hm := mem_of_removed _ _ a o (by show s1.cache a = some o; rw [h1s]; exact h) hr
-      simp only [List.mem_filter, List.isEmpty_iff] at hm
-      intro e he hnt hv
-      have : e ∈ s.otherReferrers (s.targetEnts ps) a := by
-        unfold St.otherReferrers
-        simp only [List.mem_filter, decide_eq_true_eq]
-        exact ⟨he, hnt, hv⟩
-      rw [hm.2] at this
-      cases this
+    cases o1 <;> simp only at h1 hr
+    · exact key hr
+    · exact key hr
+    · rw [h1, h] at hr; cases hr
 
 /-- **C05_untrack_unlists**: after `untrack` no target entity has a record. -/
 theorem C05_untrack_unlists (s : St) (ps : List Path) (e : Ent) (he : e ∈ s.targetEnts ps)
-    (hok : (s.untrack ps).2 ≠ .panic) : (s.untrack ps).1.recs e = none := by
+    (hok : (s.untrack ps).2 = .ok) : (s.untrack ps).1.recs e = none := by
   unfold St.untrack at hok ⊢
   simp only at hok ⊢
   split
   · rename_i hany; simp [hany] at hok
-  · generalize (forEach _ s (s.targetEnts ps)) = res at hok ⊢
+  · rename_i hany
+    simp only [hany, Bool.false_eq_true, if_false] at hok
+    generalize s.rematerialise (s.targetEnts ps) = res at hok ⊢
     obtain ⟨s1, o1⟩ := res
-    cases o1 with
-    | panic => simp at hok
-    | ok =>
-      simp only
-      have : ∀ (l : List Addr) (s0 : St), (l.foldl St.removeObj s0).recs = s0.recs := by
-        intro l; induction l with
-        | nil => intro s0; rfl
-        | cons a l ih => intro s0; simp only [List.foldl_cons]; rw [ih, removeObj_recs]
-      rw [this]; simp [he]
-    | refused =>
-      simp only
-      have : ∀ (l : List Addr) (s0 : St), (l.foldl St.removeObj s0).recs = s0.recs := by
-        intro l; induction l with
-        | nil => intro s0; rfl
-        | cons a l ih => intro s0; simp only [List.foldl_cons]; rw [ih, removeObj_recs]
-      rw [this]; simp [he]
+    cases o1 <;> simp only at hok ⊢
+    · rw [foldl_removeObj_recs]; simp [St.dropRecs, he]
+    · rw [foldl_removeObj_recs]; simp [St.dropRecs, he]
+    · cases hok
 
 /-- a symlinked target is re-materialised as an independent writable copy of its object (one target) -/
 theorem C05_untrack_symlink_becomes_file (s : St) (p : Path) (e : Ent) (r : Rec) (d : Digest) (o : Obj)
